@@ -16,7 +16,7 @@ func init() {
 		ID: "C11",
 		Explanation: "Decides structural necessary conditions of C11: (R-C11-1) in Store.poll every iteration over the snapshot either issues GetIfChanged for that name or takes a skip path whose deciding condition depends (data/control dependence, through the snapshot's struct field and module callees) on a comma-ok read of the handle map Store.active.f: the store may only skip what it is going to forget, and it never forgets a name that has a handle; " +
 			"(R-C11-2) poll errors abort before applying: applyUpdates is edge-dominated by the nil edge of poll, every GetIfChanged error other than ErrValueNotChanged flows into the returned errors.Join, the refresh closure reports both failures; (R-C11-3) pairing: the name fetched, the version sent and the key written to the update set are the same snapshot entry, and apply installs updates[name] under name; " +
-			"(R-C11-8) a successful answer whose version differs from the held one reaches the update set on every path (path search with the == edge of the version comparison removed: an ordering test such as > leaves a path and is reported), and the poll loop has no early exit that lets poll return nil with names unvisited; (R-C11-4) apply happens in one critical section followed by a cache flush; (R-C11-5) single-flight keys are the constant \"poll\" or \"lookup:\"+name (disjoint families) and Refresh is the only route to poll/applyUpdates; (R-C11-7) cadence: the poller waits on one ticker created with interval plus a jitter of at most a tenth of the interval either way, and nothing resets that ticker; (R-C11-6) poll itself writes nothing to the active set, so a failed poll leaves every old value in place. (R-C11-1, extended) every iteration of the poll loop either asks the service about that name or records the expired marker for it, and every name of the active set enters the snapshot the loop runs over.",
+			"(R-C11-8) a successful answer whose version differs from the held one reaches the update set on every path (path search with the == edge of the version comparison removed: an ordering test such as > leaves a path and is reported), and the poll loop has no early exit that lets poll return nil with names unvisited; (R-C11-4) apply happens in one critical section followed by a cache flush; (R-C11-5) single-flight keys are the constant \"poll\" or \"lookup:\"+name (disjoint families) and Refresh is the only route to poll/applyUpdates; (R-C11-7) cadence: the poller waits on one ticker created with interval plus a jitter of at most a tenth of the interval either way, and nothing resets that ticker; (R-C11-6) poll itself writes nothing to the active set, so a failed poll leaves every old value in place. (R-C11-1, extended) every iteration of the poll loop either asks the service about that name or records the expired marker for it, and every name of the active set enters the snapshot the loop runs over. (R-C11-9) a handle reads the entry stored under its name at each call (handleBoundToName) and the cache document is the whole live active set (C13's R-C13-2).",
 		NotDecided:  "Freshness against the service's history; poll cadence +/-10% (arithmetic on a random value); convergence after failures.",
 		Trusted:     append([]string{"singleflight.Group runs one function per key at a time and hands every waiter its result", "errors.Join is nil iff all elements are nil"}, commonTrusted...),
 		Assumptions: []string{},
@@ -33,6 +33,12 @@ func runC11(c *eng.Ctx, tier string) {
 		c.Undecided("anchor", nil, 0, "setec.(*Store).poll / Refresh / the function installing poll results", "anchors do not resolve")
 		return
 	}
+	// R-C11-9: "every secret the store knows yields ...": a handle reads the
+	// entry stored under its name at each call (what a poll installs is what
+	// handles yield), and "the cache holds the same": the document written is
+	// the whole live active set (C13's rule)
+	handleBoundToName(c, "R-C11-9")
+	includeOnly(c, "R-C11-9", func(sc *eng.Ctx) { runC13(sc, "quick") }, "R-C13-2")
 	// the function the refresh round calls to apply: the callee of the round
 	// (the closure calling poll) that reaches an installing function
 	apply := afs[0]
@@ -350,6 +356,76 @@ func c11Poll(c *eng.Ctx, poll *ssa.Function) {
 		})
 		if len(loop.Body.Instrs) > 0 && (isFetch(loop.Body.Instrs[0]) || isMarker(loop.Body.Instrs[0])) {
 			hit = nil
+		}
+		if hit != nil {
+			// two passes over one snapshot: an earlier loop over the same
+			// snapshot records the marker for every element whose flag F is
+			// set; this loop may then pass over exactly those elements
+			flagOf := func(l *mapLoop, v ssa.Value) string {
+				fr, base, isF := eng.LoadedField(v)
+				if !isF || base == nil || !(eng.Origin(base) == l.Val || isCellOf(base, l.Val)) {
+					return ""
+				}
+				return fr.Name
+			}
+			marked := map[string]bool{}
+			for _, l1 := range mapLoops(poll) {
+				l1 := l1
+				if l1.Header == loop.Header || l1.Body == nil || l1.Done == nil || !eng.Same(l1.Range.X, loop.Range.X) || !l1.Done.Dominates(loop.Header) {
+					continue
+				}
+				isMarker1 := func(in ssa.Instruction) bool {
+					mu, ok := in.(*ssa.MapUpdate)
+					if !ok || !eng.IsNilConst(eng.Origin(mu.Value)) || eng.Origin(mu.Key) != l1.Key {
+						return false
+					}
+					mt, _ := mu.Map.Type().Underlying().(*types.Map)
+					return mt != nil && eng.IsNamed(mt.Elem(), "types/api", "SecretValue")
+				}
+				// candidate flags: fields of the element branched on in l1
+				flags := map[string]bool{}
+				eng.Instrs(poll, func(in ssa.Instruction) {
+					if ifi, ok := in.(*ssa.If); ok && l1.Body.Dominates(ifi.Block()) {
+						if v, _, isB := eng.CondOf(ifi.Cond, true).Bool(); isB {
+							if f := flagOf(&l1, v); f != "" {
+								flags[f] = true
+							}
+						}
+					}
+				})
+				for f := range flags {
+					assume := func(b *ssa.BasicBlock, i int) bool {
+						ifi, ok := b.Instrs[len(b.Instrs)-1].(*ssa.If)
+						if !ok {
+							return true
+						}
+						v, truth, isB := eng.CondOf(ifi.Cond, i == 0).Bool()
+						if isB && flagOf(&l1, v) == f {
+							return truth
+						}
+						return true
+					}
+					if miss, _ := eng.SearchBlock(poll, l1.Body, assume, isMarker1, func(x ssa.Instruction) bool { return x.Block() == l1.Header || eng.IsReturn(x) }); miss == nil {
+						marked[f] = true
+					}
+				}
+			}
+			if len(marked) > 0 {
+				notMarked := func(b *ssa.BasicBlock, i int) bool {
+					ifi, ok := b.Instrs[len(b.Instrs)-1].(*ssa.If)
+					if !ok {
+						return true
+					}
+					v, truth, isB := eng.CondOf(ifi.Cond, i == 0).Bool()
+					if isB && marked[flagOf(loop, v)] {
+						return !truth // elements with the flag set were marked by the earlier pass
+					}
+					return true
+				}
+				hit, path = eng.SearchBlock(poll, loop.Body, notMarked, func(x ssa.Instruction) bool { return isFetch(x) || isMarker(x) }, func(x ssa.Instruction) bool {
+					return x.Block() == loop.Header
+				})
+			}
 		}
 		c.Check(hit == nil, "R-C11-1", poll, loop.Next.Pos(), "iterations of the poll loop", "every known name is either asked about or marked for removal in each poll (no name is silently left as it is: a successful poll brings EVERY known secret up to date)", func() string {
 			if hit == nil {
@@ -795,10 +871,15 @@ func c11Keys(c *eng.Ctx, refresh, poll, apply *ssa.Function) {
 						okk = reach[poll] && reach[apply]
 					}
 				}
-			} else if b, isB := eng.Origin(key).(*ssa.BinOp); isB {
-				if pre, isC := eng.ConstString(b.X); isC && pre == "lookup:" && !strings.HasPrefix("poll", pre) {
-					okk = true
+			} else if text, vars, isT := eng.StrTemplate(eng.OriginX(key)); isT && len(vars) >= 1 {
+				// a constant label joined with a name (possibly computed by the
+				// caller of a helper): it can never equal "poll" if the constant
+				// part before the first variable is no prefix of "poll"
+				pre := text
+				if i := strings.Index(text, "%"); i >= 0 {
+					pre = text[:i]
 				}
+				okk = pre != "" && !strings.HasPrefix("poll", pre)
 			}
 			c.Check(okk, "R-C11-5", f, in.Pos(), "single-flight key "+desc+" in "+eng.FName(f), "keys are the constant \"poll\" (for the poll round) or \"lookup:\"+name: the two families cannot collide", "")
 		})
